@@ -1075,6 +1075,7 @@ def group_nearby_members(
 # ===== Rolling Aggregation Methods =====
 
 
+@check_data_inputs_aligned("group_key", "values", "mask")
 def _apply_rolling(
     operation: str,
     group_key: ArrayType1D,
@@ -1692,6 +1693,7 @@ def _cumulative_reduce(
     return target, has_null_key
 
 
+@check_data_inputs_aligned("group_key", "values", "mask")
 def _apply_cumulative(
     operation: str,
     group_key: ArrayType1D,
